@@ -705,6 +705,9 @@ func driveKernel(r *rand.Rand, w *bufio.Writer, id int, cv *coverOut) {
 		if r.Intn(2) == 0 {
 			b = relativeShape(r, a, key)
 		}
+		if r.Intn(10) == 0 {
+			a, b = fragmentingPair(r, key)
+		}
 		if r.Intn(3) == 0 && key < 0xFFFF {
 			a = a.union(edgeShape(r, key+1))
 		}
@@ -740,6 +743,9 @@ func driveKernel(r *rand.Rand, w *bufio.Writer, id int, cv *coverOut) {
 			}
 			e.run(Call{Op: op, X: 3, Y: ord[1]})
 			e.run(Call{Op: op + "S", Dst: 4, X: ord[0], Y: ord[1]})
+			if r.Intn(2) == 0 { // what the results look like on the wire (payload kinds at the thresholds)
+				e.run(Call{Op: "Ser", X: 3 + r.Intn(2), V: r.Intn(4)})
+			}
 		}
 	}
 	for _, q := range []string{"AndCard", "OrCard", "Intersects", "Equals"} {
